@@ -106,7 +106,13 @@ def family(ax):
 
 def one(ax, th, v, tol):
     """Oracle for one triple -> None or (class_key, what)."""
-    got = rotate_vector_around_an_axis(th, Vector(*ax), Vector(*v))
+    axv, vv = Vector(*ax), Vector(*v)
+    got = rotate_vector_around_an_axis(th, axv, vv)
+    if (axv.x, axv.y, axv.z) != tuple(ax) or (vv.x, vv.y, vv.z) != tuple(v):
+        return ('arguments-modified', 'axis %r -> %r, vector %r -> %r' % (ax, (axv.x, axv.y, axv.z), v, (vv.x, vv.y, vv.z)))
+    again = rotate_vector_around_an_axis(th, axv, vv)     # the same objects used a second time
+    if (again.x, again.y, again.z) != (got.x, got.y, got.z):
+        return ('second-call-differs', 'axis %r angle %r vec %r: %r then %r' % (ax, th, v, (got.x, got.y, got.z), (again.x, again.y, again.z)))
     g = [got.x, got.y, got.z]
     exp = rodrigues(th, ax, v)
     lv = math.sqrt(sum(c * c for c in v))
